@@ -158,9 +158,14 @@ impl<'a> Parser<'a> {
         let mut cx = Context::new(self.origin);
         let mut state = State::StartLine;
         let mut stack = self.lexers.len();
+        // items of a list that was opened before the record type
+        let mut unlisted = Vec::new().into_iter();
 
         'outer: while let Some((lexer, path)) = self.lexers.last_mut() {
-            while let Some(t) = lexer.next_token()? {
+            while let Some(t) = match unlisted.next() {
+                Some(data) => Some(Token::CharData(data)),
+                None => lexer.next_token()?,
+            } {
                 state = match state {
                     State::StartLine => {
                         // current_name is not reset on the next line b/c it might be needed from the previous
@@ -280,6 +285,12 @@ impl<'a> Parser<'a> {
                                         State::Record(vec![])
                                     }
                                 }
+                            }
+                            // parentheses only hide the line ends, they may be opened before the
+                            //  RDATA, then the items are handled as if they were not in a list
+                            Token::List(list) => {
+                                unlisted = list.into_iter();
+                                State::TtlClassType
                             }
                             // could be nothing if started with blank and is a comment, i.e. EOL
                             Token::EOL => {
